@@ -14,6 +14,7 @@ type Spec struct {
 	Timeline []TLEvent  `json:"timeline"`
 	Explicit []ExplicitFault `json:"explicit,omitempty"`
 	StmtFail []StmtFail      `json:"stmt_fail,omitempty"`
+	CrashAt  *CrashAt        `json:"crash_at,omitempty"`
 	// ExplicitOnly: replay/shrink mode - per-call decisions come only from Explicit
 	ExplicitOnly bool  `json:"explicit_only,omitempty"`
 	DurationMs   int64 `json:"duration_ms"`
@@ -157,6 +158,15 @@ type StmtFail struct {
 	Errno  int    `json:"errno"`
 	FromMs int64  `json:"from_ms"`
 	ToMs   int64  `json:"to_ms"`
+}
+
+// CrashAt: kill (or cut from ZooKeeper) the incarnation that started a switchover attempt at
+// its N-th external call (SQL statement or ZooKeeper request) after the StartSwitchover write.
+type CrashAt struct {
+	N         int    `json:"n"`
+	Mode      string `json:"mode"` // after | before | zkcut
+	RestartMs int64  `json:"restart_ms"` // 0 = never restarted (another host takes over)
+	CutMs     int64  `json:"cut_ms,omitempty"`
 }
 
 // ExplicitFault pins the decision for one call identity.
